@@ -229,12 +229,28 @@ func zzC08SessionLevel() {
 	w.s.rnodes[zzNodeA] = n
 	cp := nondetU64("cpseid")
 	sess := n.NewSess(cp)
+	oldID := sess.LocalID
+	// the session may have ended before the request arrives: deleted by its peer, or dropped because
+	// the peer set up its association again - its SEID must then be answered "context not found"
+	ended := nondetChoice("ended-before", 3)
+	switch ended {
+	case 1:
+		zzDeliver(w.s, zzDelReq(oldID, 0xfffff1), zzAddrA, 0xfffff1)
+	case 2:
+		zzDeliver(w.s, zzAssocReq(0xfffff1, zzNodeA), zzAddrA, 0xfffff1)
+	}
+	if ended != 0 {
+		zzAssert("C08.sess.prefix-answered", zzSentCount() == 1)
+		w.sent = zzSentCount()
+		zzCover("C08.sess.ended-before")
+	}
 	x := nondetU64("header-seid")
 	seq := zzSeq24("seq")
+	zzAssume(seq != 0xfffff1)
 	peer := nondetChoice("peer", 2)
 	kind := nondetChoice("kind", 3) // 0 modification, 1 deletion, 2 modification with undecodable Node ID
 	t := w.trace()
-	live := x == sess.LocalID
+	live := ended == 0 && x == oldID
 	switch kind {
 	case 0:
 		zzDeliver(w.s, zzModReq(x, seq), zzAddr(peer), seq)
